@@ -61,3 +61,60 @@ CONTRACTS = {'kcore_bu': contract('kcore_bu', 'bu'), 'kcore_bd': contract('kcore
 
 for _k, _b in (('kcore_bu', 'k'), ('kcore_bd', 'k'), ('score_wu', 's')):
     CONTRACTS[_k].inputs = [('CIJ', 'CIJ0', 'mat', 'n'), (_b, _b, 'int' if _b == 'k' else 'real')]
+
+
+# ---- kcoreness_centrality_bu / _bd: modular, against the (proved) contracts of kcore_bu / kcore_bd taken as abstract functions ---------
+# KC(CIJ, k) is the matrix and KN(CIJ, k) the size that the callee returns for bound k (a deterministic function of its arguments);
+# node x is in the k-core iff it keeps a connection in KC(CIJ, k).  The loop runs k = 0 .. N-1 in increasing order and overwrites,
+# so the final coreness of x is the LARGEST k < N whose core contains x (0 if none) -- no nestedness argument is needed.
+# (for kcoreness_centrality_bd cores with k >= N exist: that truncation is the known finding listed under C15.)
+from engine.pyvc.core import fresh, A1I, TupleV, to_z3, ccnt, cnt1, Ref  # noqa: E402
+from engine.pyvc import npspec  # noqa: E402
+
+KC = z3.Function('KC', A2R, REAL, A2R)      # the bound is passed as a real: coreness values are stored in a float array
+KN = z3.Function('KN', A2R, REAL, INT)
+
+
+def _callee_kcore(eng, st, args, kw, node):
+    M = eng.pure(st.heap[args[0].oid].term)
+    k = to_z3(args[1], REAL)
+    n = st.heap[args[0].oid].shape[0]
+    return TupleV((alloc(st, 2, KC(M, k), (n, n), REAL), KN(M, k)))
+
+
+def _setup_kc(eng, st):
+    n = z3.Int('n')
+    st.pc.append(n >= 1)
+    st.env['CIJ'] = alloc(st, 2, z3.Const('CIJ0', A2R), (n, n), REAL)
+    st.ghost['n0'] = n
+
+
+def _member(kind):
+    # membership of node x in the k-core is read off the matrix the core routine returned, the way the code does:
+    # the node has a non-zero column sum (bu) / non-zero column-plus-row sum (bd) in that 0/1 matrix
+    return "(csum(KCf(CIJ, %s), x, n0) > 0)" if kind == 'bu' else "(csum(KCf(CIJ, %s), x, n0) + rsum(KCf(CIJ, %s), x, n0) > 0)"
+
+
+def kcoreness_contract(name, kind):
+    mem = (lambda kexpr: _member(kind) % ((kexpr,) if kind == 'bu' else (kexpr, kexpr)))
+    inv = [
+        ('CORENESS-range', "forall(lambda x: implies(inr(x, n0), And(coreness[x] >= 0, Or(coreness[x] == 0, coreness[x] < _it))))"),
+        ('CORENESS-node-is-in-its-core', "forall(lambda x: implies(And(inr(x, n0), coreness[x] >= 1), %s), pattern=coreness[x])" % mem('coreness[x]')),
+        ('CORENESS-no-larger-core-so-far', "forall(lambda x, kk: implies(And(inr(x, n0), kk >= 1, kk < _it, %s), coreness[x] >= kk))" % mem('kk')),
+        ('SIZES-as-reported-by-the-core-routine', "forall(lambda kk: implies(And(kk >= 0, kk < _it), kn[kk] == KNf(CIJ, kk)))"),
+        ('FRAME', "And(N == n0, unchanged('CIJ'))"),
+    ]
+    ens = [
+        ('coreness-in-range', "forall(lambda x: implies(inr(x, n0), And(result(0)[x] >= 0, result(0)[x] < n0)))"),
+        ('node-is-in-the-core-of-its-coreness', "forall(lambda x: implies(And(inr(x, n0), result(0)[x] >= 1), %s))" % mem('result(0)[x]')),
+        ('no-core-with-larger-k-below-N-contains-the-node', "forall(lambda x, kk: implies(And(inr(x, n0), kk >= 1, kk < n0, %s), result(0)[x] >= kk))" % mem('kk')),
+        ('sizes-are-the-core-sizes', "forall(lambda kk: implies(And(kk >= 0, kk < n0), result(1)[kk] == KNf(CIJ, kk)))"),
+        ('argument-untouched', "unchanged('CIJ')"),
+    ]
+    c = Contract('bct.algorithms.centrality', name, ['CIJ'], setup=_setup_kc, ensures=ens, loops={'for k in range(N)': {'name': 'levels', 'inv': inv}})
+    c.callees = {'kcore_bu': _callee_kcore, 'kcore_bd': _callee_kcore}
+    return c
+
+
+CONTRACTS['kcoreness_centrality_bu'] = kcoreness_contract('kcoreness_centrality_bu', 'bu')
+CONTRACTS['kcoreness_centrality_bd'] = kcoreness_contract('kcoreness_centrality_bd', 'bd')
